@@ -3,7 +3,7 @@
    an IBC packet whose follow-up fails) the state afterwards is exactly the designated outcome of that
    failure and contains nothing written by the failed sub-step. *)
 From Coq Require Import ZArith List Bool.
-From FxV Require Import model.M_Cache model.M_CacheShape proofs.P_Cache.
+From FxV Require Import model.M_Cache model.M_CacheShape proofs.P_Cache model.M_CacheWrites proofs.P_CacheWrites.
 Import ListNotations.
 Open Scope Z_scope.
 
@@ -91,13 +91,13 @@ Theorem C18_attestation_unpayable_refund_exact :
 Proof. exact claim_tx_p_unpayable_refund. Qed.
 Print Assumptions C18_attestation_unpayable_refund_exact.
 
-(* histories: after ANY sequence of crossings of the tolerated-failure boundaries (and plain transactions), failed or not,
-   the state is the fold of the designated outcomes — partial effects of failed sub-steps never accumulate *)
-Theorem C18_history_is_fold_of_designated_outcomes :
-  forall S (xs : list (crossing S)) s,
-  fold_left (fun st x => cross x st) xs s = fold_left (fun st x => designated x st) xs s.
-Proof. exact @history_designated. Qed.
-Print Assumptions C18_history_is_fold_of_designated_outcomes.
+(* histories in the coarse model (a context is a value, sub-steps are functions): bookkeeping only — the content is in the
+   write-level theorems at the end of this file *)
+Theorem C18_history_coarse_model :
+  forall S (xs : list (M_Cache.crossing S)) s,
+  fold_left (fun st x => cross x st) xs s = fold_left (fun st x => M_Cache.designated x st) xs s.
+Proof. exact @P_Cache.history_designated. Qed.
+Print Assumptions C18_history_coarse_model.
 
 (* proposal: failure of the message at ANY position, after any number of succeeding messages *)
 Theorem C18_gov_failed_message_any_position :
@@ -223,3 +223,84 @@ Theorem C18_nonvacuous :
   core_recv Z true (fun x => Ok (x + 1)) (fun x => Err (x + 1)) (fun x => x + 10) (fun b x => if b then x + 100 else x + 200) 0 = (210, false).
 Proof. exact c18_nonvacuous. Qed.
 Print Assumptions C18_nonvacuous.
+
+(* ------------------------------------------------------------------------------------------------------------------ *)
+(* THE WRITE LEVEL (model/M_CacheWrites.v).  A context is a stack of write buffers over the store; a sub-step is a list of
+   store writes in source order, each computed from what its context can read at that moment; a failure point is a position
+   in that list (error, or panic).  Nothing here is `discard outer cache := outer` by definition: that a dropped branch leaves
+   the outer context alone, and that a written branch equals direct execution, are proved by induction over the write list
+   (P_CacheWrites.writes_top, discard_after_writes, commit_after_writes). *)
+
+(* every boundary crossing — any writes before the branch, any sub-step writes, failure (error or panic) after ANY number of them,
+   clean-ups that may panic after any number of theirs — ends in the designated outcome, which is written from the pre-state
+   only: after a tolerated error the residue and the common writes are computed on a view WITHOUT the sub-step's writes *)
+Theorem C18_write_level_crossing :
+  forall x pre, run_crossing x pre = M_CacheWrites.designated x pre.
+Proof. exact crossing_designated. Qed.
+Print Assumptions C18_write_level_crossing.
+
+(* for every history over all boundaries (observed events with their clean-ups, claim executions — inbound bridge call,
+   BridgeCallResult, SendToFx with an IBC target —, proposals, IBC packets; constructors x_attestation … x_ibc_recv) and every
+   choice of failure points the store is the fold of the designated outcomes *)
+Theorem C18_history_is_fold_of_designated_outcomes :
+  forall xs s, run_history xs s = designated_history xs s.
+Proof. exact P_CacheWrites.history_designated. Qed.
+Print Assumptions C18_history_is_fold_of_designated_outcomes.
+
+(* what a failed, tolerated crossing leaves does not depend on what the sub-step wrote or where it stopped *)
+Theorem C18_failed_crossing_independent_of_substep :
+  forall x pre n sub' n',
+  x_branch x = true -> x_fail x = ErrAfter n ->
+  let x' := {| x_pre := x_pre x; x_branch := true; x_sub := sub'; x_fail := ErrAfter n'; x_residue := x_residue x;
+               x_success := x_success x; x_post := x_post x; x_post_fail := x_post_fail x |} in
+  run_crossing x pre = run_crossing x' pre.
+Proof. exact failed_crossing_independent_of_substep. Qed.
+Print Assumptions C18_failed_crossing_independent_of_substep.
+
+(* a panic (sub-step or clean-up, after any number of writes) and an error that is returned instead of tolerated keep nothing *)
+Theorem C18_failed_transaction_keeps_nothing :
+  forall x pre, snd (run_crossing x pre) = 2 -> fst (run_crossing x pre) = pre.
+Proof. exact failed_transaction_keeps_nothing. Qed.
+Print Assumptions C18_failed_transaction_keeps_nothing.
+
+(* what the branch is there for, labelled variants that are NOT the code: with the sub-step on the transaction's own context
+   ("branch removed"), or with the branch written before the error test, a sub-step that fails after a write leaves that
+   write behind and the clean-ups see it *)
+Theorem C18_branch_removed_refuted :
+  (let x := x_attestation [w_const 1 1] [w_const 2 1] [w_const 5 7; w_const 6 7] (ErrAfter 1) [w_probe 5 9] NoFail [w_const 3 1] in
+   fst (run_crossing_nobranch x []) <> fst (M_CacheWrites.designated x []) /\
+   lookup (fst (run_crossing_nobranch x [])) 5 = Some 7 /\ lookup (fst (run_crossing_nobranch x [])) 9 = Some 1 /\
+   lookup (fst (run_crossing x [])) 5 = None /\ lookup (fst (run_crossing x [])) 9 = Some 0) /\
+  (let x := x_attestation [w_const 1 1] [w_const 2 1] [w_const 5 7; w_const 6 7] (ErrAfter 1) [w_probe 5 9] NoFail [w_const 3 1] in
+   fst (run_crossing_commit_always x []) <> fst (M_CacheWrites.designated x [])).
+Proof. exact (conj nobranch_refuted commit_always_refuted). Qed.
+Print Assumptions C18_branch_removed_refuted.
+
+(* … and only then.  A sub-step that stops before its first write — every attestation handler of this code when it returns an
+   error (source fact ok_handlers of C18_source_shape) — runs the same with and without the branch: on such code NO execution can
+   show whether the branch at attestation.go (processAttestation) is there; that it is there is the source fact
+   ok_processAttestation, and the theorems above say what it buys as soon as a handler writes before failing *)
+Theorem C18_branch_unobservable_when_nothing_written :
+  forall x pre,
+  x_branch x = true -> done_writes (x_sub x) (x_fail x) = [] -> x_fail x <> NoFail ->
+  run_crossing_nobranch x pre = run_crossing x pre.
+Proof. exact nobranch_same_when_nothing_written. Qed.
+Print Assumptions C18_branch_unobservable_when_nothing_written.
+
+Theorem C18_write_level_nonvacuous :
+  let h := [ x_attestation [w_const 1 1] [w_const 2 1] [w_const 5 7; w_const 6 7] (ErrAfter 1) [w_probe 5 9] NoFail [w_const 3 1];
+             x_bridge_call [w_const 10 0] [w_const 11 50; w_const 12 60] [w_const 13 50; w_const 14 1] (ErrAfter 2) [w_const 15 50] [w_probe 13 16];
+             x_bridge_call_result [w_const 20 0] [w_const 21 1; w_const 22 1] (PanicAfter 1);
+             x_send_to_fx_ibc [w_const 30 0] [w_const 31 1; w_const 32 1; w_const 33 1] (ErrAfter 2);
+             x_gov [w_const 40 1] [w_const 41 1; w_const 42 1; w_const 43 1] (ErrAfter 2) [w_probe 41 44] [w_const 45 1];
+             x_ibc_recv [w_const 50 1] [w_const 51 1; w_const 52 1] (ErrAfter 2) [w_probe 51 53] [w_const 54 1];
+             x_attestation [w_const 1 2] [w_const 2 2] [w_const 5 8] NoFail [w_const 60 1; w_const 61 1] (PanicAfter 1) [w_const 3 2] ] in
+  let s := run_history h [] in
+  lookup s 5 = None /\ lookup s 9 = Some 0 /\ lookup s 2 = Some 1 /\ lookup s 3 = Some 1 /\
+  lookup s 11 = Some 50 /\ lookup s 13 = None /\ lookup s 15 = Some 50 /\ lookup s 16 = Some 0 /\
+  lookup s 20 = None /\ lookup s 21 = None /\ lookup s 30 = None /\ lookup s 31 = None /\
+  lookup s 40 = Some 1 /\ lookup s 41 = None /\ lookup s 44 = Some 0 /\ lookup s 45 = None /\
+  lookup s 50 = Some 1 /\ lookup s 51 = None /\ lookup s 53 = Some 0 /\ lookup s 54 = None /\
+  lookup s 60 = None /\ lookup s 1 = Some 1.
+Proof. exact writes_nonvacuous. Qed.
+Print Assumptions C18_write_level_nonvacuous.
